@@ -122,7 +122,12 @@ ODF_KW = ["text_space_tag", "text_tab_tag", "text_line_break_tag", "attr_text_c"
 
 def odf_cfg(args):
     sk = args["skip_tags"]
-    skt = EMPTYSET if isinstance(sk, VNoneT) else sk.t
+    if isinstance(sk, VNoneT):
+        skt = EMPTYSET
+    elif isinstance(sk, X.VSetC):
+        skt = X.const_strset(sk.items) if sk.items else EMPTYSET
+    else:
+        skt = sk.t
     return tuple(args[k].t for k in ODF_KW) + (skt,)
 
 
@@ -820,6 +825,7 @@ FUNC_OF_CHECK = {
     "odf.element_text": "_shared.py::element_text",
     "odg.text": "odg_extractor.py::_extract_full_text",
     "pptx.paragraphs": "pptx_extractor.py::_extract_text_from_paragraphs",
+    "odp.slide": "odp_extractor.py::_extract_slide",
 }
 
 
@@ -865,7 +871,129 @@ def bounded_native(repo, tier):
     return {"obligations": obls, "functions": [], "errors": errors}
 
 
-EXTRA = [bounded_native]
+# =====================================================================================
+# Code fragments under contract (real AST, symbolic execution of one loop iteration).
+#
+# odp_extractor._extract_slide, text-box paragraph loop.  Statement: every visible paragraph of a slide appears
+# exactly once in the slide text (title / body_text / other_text, which text_combined concatenates); comment
+# paragraphs and blank ones contribute nothing; speaker notes go to `notes` only.
+#   one iteration on paragraph p, text = strip(odf_text(p)):
+#     excluded(p) or text == ""  ->  title, body_text, other_text unchanged
+#     otherwise exactly one of:    title' == text (only when no title was found before; found_title' holds)
+#                                  body_text'  == body_text  + [text]
+#                                  other_text' == other_text + [text]          and the other two unchanged
+#   coupling kept by every iteration:  found_title  <=>  title != ""
+# =====================================================================================
+ODP = "sharepoint2text/parsing/extractors/open_office/odp_extractor.py"
+_ODF_TEXT_NS = "{urn:oasis:names:tc:opendocument:xmlns:text:1.0}"
+_ODF_STD = (_ODF_TEXT_NS + "s", _ODF_TEXT_NS + "tab", _ODF_TEXT_NS + "line-break", _ODF_TEXT_NS + "c")     # ODF 1.2 names, not read from the code
+ODP_SKIP = X.const_strset(["{urn:oasis:names:tc:opendocument:xmlns:office:1.0}annotation"])                 # comments are not slide text
+
+
+def _iter_p_loops(fnode):
+    import ast
+    out = []
+    for n in ast.walk(fnode):
+        if isinstance(n, ast.For) and isinstance(n.iter, ast.Call) and isinstance(n.iter.func, ast.Attribute) and n.iter.func.attr == "iter" \
+                and len(n.iter.args) == 1 and ast.unparse(n.iter.args[0]) == "_TEXT_P_TAG" and isinstance(n.target, ast.Name):
+            stores = {ast.unparse(x.func.value) for x in ast.walk(n) if isinstance(x, ast.Call) and isinstance(x.func, ast.Attribute) and x.func.attr == "append"}
+            stores |= {ast.unparse(t) for x in ast.walk(n) if isinstance(x, ast.Assign) for t in x.targets if isinstance(t, ast.Attribute)}
+            out.append((n, stores))
+    return out
+
+
+def fragment_obligations(repo, tier):
+    import ast
+    from pyvc import loader, verify
+    from pyvc.contracts import Registry
+    from pyvc.exctypes import Universe
+    from pyvc.state import Frame, State, HeapObj
+    from pyvc.flow import ground_obligation
+    obls, fns, undecided = [], [], []
+    mod = loader.module(ODP, repo)
+    fnode = mod.functions.get("_extract_slide")
+    if fnode is None:
+        return {"obligations": [], "undecided": [{"obligation": f"{ODP}::_extract_slide", "why": "contract-target-missing"}]}
+    loops = [(n, st) for n, st in _iter_p_loops(fnode) if any(x.startswith("slide.") for x in st)]
+    text_loops = [n for n, st in loops if not any("notes" in x for x in st)]
+    note_loops = [n for n, st in loops if any("notes" in x for x in st)]
+    pre = "C02/odp_extractor.py::_extract_slide/block#"
+    if len(text_loops) != 1 or len(note_loops) != 1:
+        return {"obligations": [ground_obligation(pre + "paragraph-loops-recognised", False, f"{len(text_loops)} text loop(s), {len(note_loops)} notes loop(s)",
+                                                  "odp_extractor.py", definite=False)]}
+    reg = Registry()
+    for c in contracts(reg):
+        reg.add(c)
+    uni = Universe(repo)
+    for kind, loop in (("slide-text", text_loops[0]), ("speaker-notes", note_loops[0])):
+        ex = EXECUTOR(mod, reg, uni)
+        ex.oid_prefix = "C02/odp_extractor.py::_extract_slide"
+        st = State()
+        p = z3.Const("p", ELEM)
+        title = z3.String("slide.title")
+        found = z3.Bool("found_title")
+        lists = {}
+        for f in ("body_text", "other_text", "notes"):
+            n, cat, lead = z3.Int(f"slide.{f}.len"), z3.String(f"slide.{f}.cat"), z3.String(f"slide.{f}.lead")
+            st.assume(X.slist_wf(n, cat, lead))
+            lists[f] = (X.mk_slist(ex, st, n, cat, lead, fresh=False), n, cat)
+        slide = VRef(st.alloc(HeapObj("obj", {"title": VStr(title), "body_text": lists["body_text"][0], "other_text": lists["other_text"][0],
+                                              "notes": lists["notes"][0]}, "OdpSlide", False), ex.refs))
+        ids = VExt("IdSet", z3.Const("comment_paragraphs", X.IDSET))
+        env = {loop.target.id: VExt("Elem", p), "slide": slide, "found_title": VBool(found)}
+        # any set of identities the enclosing code computed (the comment paragraphs)
+        for nm in {x.id for x in ast.walk(loop) if isinstance(x, ast.Name) and isinstance(x.ctx, ast.Load)}:
+            if "comment" in nm and nm not in env:
+                env[nm] = ids
+        st.frames = [Frame(env, None, fnode)]
+        st.assume(found == (title != lit("")))
+        entry = st.fork()
+        ex.cur_fn_stack.append(fnode)
+        ex.sinks.append([])
+        try:
+            outs = ex.exec_block(loop.body, st)
+        except X.Unsupported as e:
+            undecided.append({"obligation": pre + kind, "why": "OUT-OF-SUBSET " + str(e)})
+            continue
+        finally:
+            ex.sinks.pop()
+            ex.cur_fn_stack.pop()
+        text = T.STRIP(ODF_TEXT(p, lit(_ODF_STD[0]), lit(_ODF_STD[1]), lit(_ODF_STD[2]), lit(_ODF_STD[3]), ODP_SKIP))
+        excluded = X.ID_MEMBER(ids.t, X.ID_OF(p))
+        for o in outs:
+            if o.kind not in ("fall", "continue"):
+                continue
+            d = o.st.obj(slide.ref).data
+            t1 = d["title"].t if isinstance(d["title"], VStr) else None
+            f1 = o.st.lookup("found_title")
+
+            def lst(f):
+                n1, c1, _l = _sl(o.st, d[f]) if isinstance(d[f], VRef) else (None, None, None)
+                return n1, c1
+            same = lambda f: z3.And(lst(f)[0] == lists[f][1], lst(f)[1] == lists[f][2]) if lst(f)[0] is not None else z3.BoolVal(False)
+            grew = lambda f: z3.And(lst(f)[0] == lists[f][1] + 1, lst(f)[1] == cc(lists[f][2], text)) if lst(f)[0] is not None else z3.BoolVal(False)
+            t_same = (t1 == title) if t1 is not None else z3.BoolVal(False)
+            if kind == "slide-text":
+                once = z3.Or(z3.And(t1 == text, z3.Not(found), same("body_text"), same("other_text")) if t1 is not None else z3.BoolVal(False),
+                             z3.And(t_same, grew("body_text"), same("other_text")),
+                             z3.And(t_same, same("body_text"), grew("other_text")))
+                nothing = z3.And(t_same, same("body_text"), same("other_text"))
+                hidden = z3.Or(excluded, text == lit(""))
+                goals = [("visible-paragraph-stored-exactly-once", z3.Implies(z3.Not(hidden), once)),
+                         ("comment-or-blank-paragraph-stored-nowhere", z3.Implies(hidden, nothing)),
+                         ("notes-untouched", same("notes")),
+                         ("found_title<=>title-set", (f1.t == (t1 != lit(""))) if isinstance(f1, VBool) and t1 is not None else z3.BoolVal(False))]
+            else:
+                goals = [("speaker-notes-never-reach-the-slide-text", z3.And(t_same, same("body_text"), same("other_text")))]
+            for label, g in goals:
+                ex.add_vc("block", f"{kind}.{label}", o.st.pc, g, loc=f"{ODP}:{loop.lineno}")
+        for ob in ex.obls.values():
+            obls.append(dict(verify.discharge(ob, None, {}), function=f"{ODP}::_extract_slide"))
+    fns.append(dict(mod.fn_info("_extract_slide"), obligations=len(obls)))
+    return {"obligations": obls, "functions": fns, "undecided": undecided}
+
+
+EXTRA = [bounded_native, fragment_obligations]
 
 
 def known_findings(kf, violations, repo, tier):
